@@ -736,9 +736,9 @@ pub fn run(ctx: &mut Ctx) {
     ];
     preamble(ctx);
     let t = ctx.tier;
-    ctx.run_part::<RoundTrip>(t.pick(600_000, 6_000_000));
-    ctx.run_part::<Embedded>(t.pick(150_000, 1_000_000));
-    ctx.run_part::<ToJson>(t.pick(400_000, 6_000_000));
+    ctx.run_part::<RoundTrip>(t.pick(600_000, 40_000_000));
+    ctx.run_part::<Embedded>(t.pick(150_000, 8_000_000));
+    ctx.run_part::<ToJson>(t.pick(400_000, 40_000_000));
     if !ctx.sub {
         ctx.run_variant("MJV_ALT", "alt");
     }
